@@ -2209,6 +2209,40 @@ class _SkipTree(Exception):
     pass
 
 
+class _TreeTimeout(BaseException):
+    pass
+
+
+TREE_TIME_LIMIT_S = 20
+
+
+class _time_limit:
+    def __init__(self, seconds):
+        self.seconds = seconds
+        self.armed = False
+        self.old = None
+
+    def __enter__(self):
+        import signal
+
+        def handler(signum, frame):
+            raise _TreeTimeout()
+
+        try:
+            self.old = signal.signal(signal.SIGALRM, handler)
+            signal.alarm(int(self.seconds))
+            self.armed = True
+        except ValueError:  # not in the main thread
+            self.armed = False
+
+    def __exit__(self, *exc):
+        if self.armed:
+            import signal
+            signal.alarm(0)
+            signal.signal(signal.SIGALRM, self.old)
+        return False
+
+
 def build_tree(spec, symset: str = "base", evaluated: bool = True):
     """Nested-tuple spec -> SymPy expression; evaluated=True: through SymPy's evaluating constructors (canonical tree),
     evaluated=False: with evaluation disabled, the way the docs pipeline builds a documented member (source form)."""
@@ -2249,8 +2283,14 @@ def _build(spec, syms, ev):
     if h == "div":
         return a / b
     if h == "pow":
-        if ev and a.is_Number and b.is_Number and (abs(b) > 64 or (b.is_Rational and b.q > 64)):
-            raise _SkipTree("number tower")  # CPython cannot print / SymPy cannot finish such integers
+        if ev and b.is_number and not a.free_symbols:
+            big = False
+            try:
+                big = bool(abs(b) > 64) or bool(b.is_Rational and b.q > 64)
+            except TypeError:
+                big = True
+            if big:
+                raise _SkipTree("number tower")  # CPython cannot print / SymPy cannot finish such integers
         return a ** b
     raise ValueError(h)
 
@@ -2384,7 +2424,11 @@ def run_trees(args) -> dict:
         name = f"{pid}/tree/{gname}:{symset}/" + (f"d{depth}#{ix}" if g else f"shape#{ix}")
         rspec = {"population": "tree", "tree": spec, "symset": symset, "evaluated": evaluated}
         try:
-            r = validate(kind, e, name, f"tree:{gname}:{symset}:{spec!r}", rspec)
+            with _time_limit(TREE_TIME_LIMIT_S):
+                r = validate(kind, e, name, f"tree:{gname}:{symset}:{spec!r}", rspec)
+        except _TreeTimeout:
+            res["oor"].append((name, f"time limit of {TREE_TIME_LIMIT_S}s for one tree exceeded (not a verdict)"))
+            continue
         except Exception as ex:
             res["oor"].append((name, f"engine error {type(ex).__name__}: {str(ex)[:200]}"))
             res["errors"] = res.get("errors", 0) + 1
